@@ -79,6 +79,23 @@ Theorem periodic_in_range : forall xp rows P x np j, pgrid xp P -> (j < np)%nat 
     Rmin f0 f1 <= (1 - t) * f0 + t * f1 <= Rmax f0 f1.
 Proof. exact periodic_in_range. Qed.
 
+(* inside an N-d interpolation a periodic axis always contributes unit weights (1-t, t) ... *)
+Theorem axis_weights_unit_periodic : forall g P x, pgrid g P ->
+  unit_weights (enclosing g x (Some P),
+                (w_lo (frac_n g x (enclosing g x (Some P)) (Some P) false),
+                 w_hi (frac_n g x (enclosing g x (Some P)) (Some P) false))).
+Proof. exact axis_entry_unit_periodic. Qed.
+
+(* ... so gridded (latitude, longitude) data at a track point with ANY longitude (any number of
+   periods away, also across the antimeridian) and a latitude inside its grid give, for finite data,
+   a value between the smallest and the largest data value *)
+Theorem track_point_lat_lon : forall glat glon P data lat lon i lo hi,
+  asc glat -> (i + 1 < length glat)%nat -> rnth glat i <= lat < rnth glat (i + 1) ->
+  pgrid glon P ->
+  (forall idx, exists v, nd_get [length glat; length glon] data idx = Some v /\ lo <= v <= hi) ->
+  exists v, interp_nd [glat; glon] [None; Some P] data [lat; lon] false = Some v /\ lo <= v <= hi.
+Proof. exact track_point_lat_lon. Qed.
+
 (* angular data: unit-vector mean of two non antipodal angles with weights (1-w, w) lies on the
    SHORTER arc (cross products have the sign of the wrapped difference, positive component along
    the bisector, non zero) *)
